@@ -67,6 +67,24 @@ CLAIMS = {
         "filters all chars matching the table's is_for_parse = char::is_whitespace. Hence inserting spaces at any token boundary cannot change the parse. "
         "That removing all spaces never glues tokens for every value is not decided.",
    note="Trusted: rustc MIR, the typestate engine (one modelled flag correlation, Err edges exempt), the two listed exceptions."),
+ "C14": dict(
+   level="other", design="DESIGN.md §4 C14",
+   technique="static analysis: sibling agreement of six exhaustive matches over the 30 constructors (HIR shape extraction) + ImageIterator shape + fold category map",
+   text="30-row agreement table: storage kind = capacity class = NAL ordering class; category partitions the constructors and equals the role of the "
+        "keyword that produces each; get_components / extract_terms / get_components_including_placeholder have, per variant, exactly the shape the "
+        "storage dictates (self / boxed operands in order / plain iteration), images re-insert the placeholder at their own index (vec.insert(index,_) / "
+        "ImageIterator(vec.iter(), index)), ImageIterator::next yields the placeholder exactly at its index; predicates compare with their own class; "
+        "lexical maps and fold keep the category. No wildcard arms allowed, so the compiler keeps covering new variants.",
+   note="Trusted: rustc HIR, Vec::insert / iteration-order semantics of std, the shape recognisers."),
+ "C17": dict(
+   level="other", design="DESIGN.md §4 C17",
+   technique="static analysis: decision-table extraction (HIR) against storage/capacity classes + MIR effect analysis (no write can precede an Err return)",
+   text="set_atom_name and push_components are decoded into decision tables over all constructors and compared with the storage kind and capacity class: "
+        "rename = clear+push for exactly the String atoms, placeholder Ok without write, interval via str::parse::<usize> with the write only in the Ok "
+        "continuation, Err otherwise; extend in order for exactly class Vec, unite for exactly class Set, Err for the fixed-capacity classes. A MIR effect "
+        "analysis proves that no store or &mut borrow of *self can be followed by an Err construction (dependency helper ResultBoost::transform summarised "
+        "from its pinned source).",
+   note="Trusted: rustc HIR/MIR, std String/Vec/HashSet mutator semantics, usize::from_str, the pinned nar_dev_utils summary (version asserted)."),
 }
 
 NOT_YET = "check not built yet (DESIGN.md §8 build order); will be claimed once its rules run"
